@@ -213,8 +213,12 @@ class ClassInfo:
 class Repo:
     """All parsed modules of the package plus lookup helpers."""
 
-    def __init__(self, root: str | None = None):
+    def __init__(self, root: str | None = None, overrides: dict | None = None, share: "Repo | None" = None):
+        """overrides: {path relative to root: source text} replaces the file content (in-memory variant of the tree);
+        share: an already loaded Repo of the same root whose parsed modules are re-used for the unchanged files."""
         self.root = root or REPO_ROOT
+        self._overrides = overrides or {}
+        self._share = share
         self.modules: dict[str, Module] = {}
         self.classes: dict[str, ClassInfo] = {}  # qualname -> info
         self.by_short: dict[str, list[ClassInfo]] = {}
@@ -237,8 +241,15 @@ class Repo:
                 if rel[-1] == "__init__":
                     rel = rel[:-1]
                 name = ".".join(rel)
-                with open(path, encoding="utf-8") as handle:
-                    source = handle.read()
+                relpath = os.path.relpath(path, self.root)
+                if relpath in self._overrides:
+                    source = self._overrides[relpath]
+                elif self._share is not None and name in self._share.modules:
+                    self.modules[name] = self._share.modules[name]
+                    continue
+                else:
+                    with open(path, encoding="utf-8") as handle:
+                        source = handle.read()
                 try:
                     self.modules[name] = Module(name, path, source)
                 except SyntaxError as exc:
@@ -266,6 +277,13 @@ class Repo:
         elif isinstance(node, ast.If):
             for item in node.body + node.orelse:
                 self._collect(item, mod, outer)
+
+    def read_text(self, relpath: str) -> str:
+        """Content of a file of the analysed tree (honours in-memory overrides of variant trees)."""
+        if relpath in self._overrides:
+            return self._overrides[relpath]
+        with open(os.path.join(self.root, relpath), encoding="utf-8") as handle:
+            return handle.read()
 
     # ------------------------------------------------------------------ name resolution
     def resolve(self, mod: Module, name: str, _depth=0):
